@@ -200,6 +200,9 @@ type verifFake struct {
 	moveBatch int
 	batchRuns int
 	keyspaceReverse bool // INFO keyspace lists the databases in descending order
+	// moveBatchPartial: the refused batch is a cluster batch (no MULTI/EXEC on the wire): one command
+	// is answered MOVED, the node executes all the others
+	moveBatchPartial bool
 }
 
 var verifErrReply = common.RedisError("OOM command not allowed when used memory > 'maxmemory'")
@@ -575,6 +578,21 @@ func (b *verifBatcher) run() {
 	b.f.batchRuns++
 	if b.f.moveBatch > 0 && b.f.batchRuns == b.f.moveBatch {
 		b.err = errors.Join(common.ErrMove, errors.New("MOVED 1 fake:6380"))
+		if b.f.moveBatchPartial {
+			b.f.batchN++
+			moved := false
+			for _, c := range b.cmds {
+				lc := strings.ToLower(c.cmd)
+				if lc == "multi" || lc == "exec" {
+					continue
+				}
+				if !moved && lc == "set" {
+					moved = true
+					continue
+				}
+				b.f.request(c.cmd, c.args)
+			}
+		}
 		b.cmds = nil
 		return
 	}
